@@ -163,13 +163,19 @@ where
     ks.sort();
     ks.dedup();
     for &k in &ks {
-        let got = mk().nth(k).map(&show);
+        let mut it = mk();
+        let got = it.nth(k).map(&show);
         if got.as_ref() != want.get(k) {
             return Some(format!("nth({})={:?},by-next={:?}", k, got, want.get(k)));
         }
-        let got = mk().skip(k).next().map(&show);
-        if got.as_ref() != want.get(k) {
-            return Some(format!("skip({}).next()={:?},by-next={:?}", k, got, want.get(k)));
+        // ... and the iterator continues right after the element it jumped to
+        let rest: Vec<U> = if got.is_some() { it.take(n + 2).map(&show).collect() } else { vec![] };
+        if rest[..] != want[(k + 1).min(n)..] {
+            return Some(format!("after nth({}): {:?},by-next={:?}", k, rest, &want[(k + 1).min(n)..]));
+        }
+        let rest: Vec<U> = mk().skip(k).take(n + 2).map(&show).collect();
+        if rest[..] != want[k.min(n)..] {
+            return Some(format!("skip({}): {:?},by-next={:?}", k, rest, &want[k.min(n)..]));
         }
         let mut it = mk();
         for _ in 0..k.min(n) {
